@@ -70,6 +70,11 @@ class C11(Prop):
         "NV.C11.sim_round",
         "NV.C11.sim_reload",
         "NV.C11.sim_tick",
+        "NV.C11.gen_shbGuard_eq",
+        "NV.C11.gen_retuneStore_eq",
+        "NV.C11.gen_growCap_eq",
+        "NV.C11.gen_ctxSaveRestore_eq",
+        "NV.C11.gen_heartBeatsReversed_eq",
         "NV.C11.gen_rmMove_eq",
         "NV.C11.applyMove_eq_erase",
         "NV.C11.gen_queryReturns_eq",
